@@ -83,7 +83,9 @@ FBetaPR(p, r, b1, b2) ==   \* p, r rationals
    every strictly increasing map (MetricsMC!AucOK); the harness therefore also feeds scores
    far from unit scale -- k * 2^e with e = -70..40, and neighbouring floats 2^e + k ulps --
    whose distinct values lie closer together than machine epsilon, and records their dense
-   ranks: an implementation that ties "nearly equal" scores is wrong there by O(1). *)
+   ranks: an implementation that ties "nearly equal" scores is wrong there by O(1).  For
+   the same reason the top / bottom tie groups are also placed at +-T::MAX and +-infinity
+   (family "extreme"): no finite or infinite score value is special to the definition. *)
 Pos(a) == { i \in Idx(a) : a[i] = 1 }
 Neg(a) == { i \in Idx(a) : a[i] = 0 }
 AUC(a, s) ==
